@@ -497,6 +497,21 @@ class Node:
         if missing:
             raise vlib.Infra(f"series not visible after {timeout}s: {missing}")
 
+    def wait_rows(self, expect, timeout=60):
+        """expect: {measurement: number of rows}; a row written into a shard group that was just created is not visible
+        to queries until the sql side has refreshed its meta data: polled until every row is returned"""
+        t0 = time.time()
+        missing = dict(expect)
+        while missing and time.time() - t0 < timeout:
+            for m in list(missing):
+                err, series = self.run_query(f"select * from {m}", None, None)
+                if not err and sum(len(s["values"]) for s in series) >= missing[m]:
+                    del missing[m]
+            if missing:
+                time.sleep(0.3)
+        if missing:
+            raise vlib.Infra(f"rows not visible after {timeout}s: {missing}")
+
     def run_query(self, text, chunked, ics):
         p = {"db": "db0", "epoch": "ns", "q": text}
         if chunked:
@@ -603,7 +618,9 @@ class Run:
             with self.lock:
                 ref = self.ref.setdefault(key, (cn, cfg, text))
             if ref[0] != cn:
-                rec = {"set": si, "case": ci, "config": cfg, "server": node.name, "query": text, "known": "",
+                # both answers are acceptable to the specification, so they differ only in the pick among tied points
+                rec = {"set": si, "case": ci, "config": cfg, "server": node.name, "query": text,
+                       "known": "F-C08-9" if "F-C08-9" in self.open else "",
                        "detail": f"answer depends on the configuration: {cn} here, {ref[0]} under [{ref[1]}]",
                        "mst_kind": mst_kind, "desc": desc, "chunked": chunked, "ics": ics, "label": label}
         if rec:
@@ -644,6 +661,7 @@ class Run:
             for c in self.concs:
                 node.write(c.lines(c.m, c.rows))
             node.wait_series({c.m: c.nseries() for c in self.concs})
+            node.wait_rows({c.m: len(c.rows) for c in self.concs})
             self.round(node, f"{name}/memtable", ["m"], self.variants(full, "r1"))
             # 2. first part of the 'split' copies, flush, second part
             parts = [c.split() for c in self.concs]
@@ -653,6 +671,7 @@ class Run:
             for c, (p1, p2) in zip(self.concs, parts):
                 node.write(c.lines(c.n, c.rows, p2))
             node.wait_series({c.n: c.nseries() for c in self.concs})
+            node.wait_rows({c.n: len(c.rows) for c in self.concs})
             node.ctrl(mod="chunk_reader_parallel", limit="1")
             self.round(node, f"{name}/flushed,file+memtable,chunk_reader_parallel=1", ["m", "n"], self.variants(full, "r2"))
             # 3. second flush: the split copies are two files (ordered + out of order)
